@@ -182,7 +182,8 @@ def _merge_atom_attributes_and_additional_attributes(
 ) -> None:
     for atom_index, attrs in atom_attrs.items():
         if atom_index in additional_attrs:
-            attrs |= additional_attrs[atom_index]
+            # 0 is the default of CHG, RAD and ISO entries: same meaning as no entry.
+            attrs |= {k: v for k, v in additional_attrs[atom_index].items() if v != 0}
 
 
 def _to_int(s: str) -> int:
